@@ -122,8 +122,12 @@ func syncExploreOnce(t *testing.T, id int, rnd *rand.Rand) (evs []SyncEv, cfg st
 				top = N
 			}
 			script = append(script, offer{"valid", top})
-		case r < 8:
+		case r < 7:
 			script = append(script, offer{"forged", top + 1}) // adjacent to the highest offered head: fails hard
+		case r < 8 && top > 1:
+			// the highest head offered so far again, as it is or forged: known by now, must be refused whatever the
+			// sync loop is doing with it at that moment
+			script = append(script, offer{[]string{"stale", "forgedSame"}[rnd.Intn(2)], top})
 		default:
 			script = append(script, offer{"wrongchain", top + 1 + rnd.Intn(2)})
 		}
@@ -166,6 +170,12 @@ func syncExploreOnce(t *testing.T, id int, rnd *rand.Rand) (evs []SyncEv, cfg st
 		defer func() { hsync.VerifHook = nil; n.get.pre = nil }()
 
 		var mu sync.Mutex
+		type verdict struct {
+			kind string
+			h    int
+			res  string
+		}
+		var done []verdict
 		gossipBusy := false
 		var lastBad *vh.Header
 		headRet := 0
@@ -243,7 +253,9 @@ func syncExploreOnce(t *testing.T, id int, rnd *rand.Rand) (evs []SyncEv, cfg st
 				case "valid":
 					hdr = chain.At(uint64(o.h))
 					ename, ekind, eh = "gossipAsync", "valid", o.h // from now on the store may legitimately reach it
-				case "forged":
+				case "stale":
+					hdr = chain.At(uint64(o.h))
+				case "forged", "forgedSame":
 					hdr = chain.Forge(uint64(o.h), uint64(100+nextOffer))
 				case "wrongchain":
 					hdr = chain.At(uint64(o.h)).Clone()
@@ -251,16 +263,24 @@ func syncExploreOnce(t *testing.T, id int, rnd *rand.Rand) (evs []SyncEv, cfg st
 				}
 				mu.Lock()
 				gossipBusy = true
-				if o.kind != "valid" {
+				if o.kind != "valid" && o.kind != "stale" {
 					lastBad = hdr
 				}
 				mu.Unlock()
+				okind := o.kind
+				if okind == "forgedSame" {
+					okind = "forged"
+				}
+				oh := o.h
 				go func() {
 					ctx, cancel := context.WithTimeout(context.WithValue(bg, procKey{}, "G"), time.Hour)
 					defer cancel()
-					_ = n.sub.deliver(ctx, hdr)
+					err := n.sub.deliver(ctx, hdr)
 					mu.Lock()
 					gossipBusy = false
+					if okind != "valid" {
+						done = append(done, verdict{okind, oh, errClass(err)})
+					}
 					mu.Unlock()
 				}()
 				synctest.Wait()
@@ -299,6 +319,17 @@ func syncExploreOnce(t *testing.T, id int, rnd *rand.Rand) (evs []SyncEv, cfg st
 				ename, ekind, eh = "gossipAsync", "valid", lh
 			}
 			evs = append(evs, observe(step, ename, ekind, eh, true))
+			// deliveries of headers that must be refused which have returned meanwhile: one event each, with the verdict
+			mu.Lock()
+			vs := done
+			done = nil
+			mu.Unlock()
+			for _, v := range vs {
+				step++
+				e := observe(step, "gossip", v.kind, v.h, true)
+				e.Res = v.res
+				evs = append(evs, e)
+			}
 		}
 		// everything is released; the honest getter answers; the loop must reach the newest learned head
 		sc.drain()
